@@ -421,7 +421,8 @@ impl<W: Word> BitFieldVec<W, Vec<W>> {
     /// Adds a value at the end of the vector.
     pub fn push(&mut self, value: W) {
         panic_if_value!(value, self.mask, self.bit_width);
-        if (self.len + 1) * self.bit_width > self.bits.len() * W::BITS {
+        // We need at least one word to handle the case of bit width zero.
+        if (self.len + 1) * self.bit_width > self.bits.len() * W::BITS || self.bits.is_empty() {
             self.bits.push(W::ZERO);
         }
         unsafe {
@@ -434,9 +435,10 @@ impl<W: Word> BitFieldVec<W, Vec<W>> {
     pub fn resize(&mut self, new_len: usize, value: W) {
         panic_if_value!(value, self.mask, self.bit_width);
         if new_len > self.len {
-            if new_len * self.bit_width > self.bits.len() * W::BITS {
-                self.bits
-                    .resize((new_len * self.bit_width).div_ceil(W::BITS), W::ZERO);
+            // We need at least one word to handle the case of bit width zero.
+            let n_of_words = Ord::max(1, (new_len * self.bit_width).div_ceil(W::BITS));
+            if n_of_words > self.bits.len() {
+                self.bits.resize(n_of_words, W::ZERO);
             }
             for i in self.len..new_len {
                 unsafe {
